@@ -93,6 +93,10 @@ def target_spec(name):
         fl = BASE + HOOKS + (["-O2"] if name == "enc_fast" else SAN + ["-O1"])
         units = [(f"{S}/enc/enc_main.cpp", "enc_main.o", fl), (f"{REPO}/art_internal.cpp", "art_internal.o", fl)]
         return "g++", units, ([] if name == "enc_fast" else SAN), ["enc"]
+    if name == "lock":
+        fl = BASE + HOOKS + SAN + ["-O1"]
+        units = [(f"{S}/conc_lock/lock_main.cpp", "lock_main.o", fl)]
+        return "g++", units, SAN + ["-pthread"], ["sched", "conc_lock"]
     raise KeyError(name)
 
 
@@ -520,7 +524,123 @@ def check_enc(pid, tier, seed):
     return finish(pid, res)
 
 
+# ---------------------------------------------------------------------------
+# Scheduled (concurrent) checks
+
+def sched_stats_files(outdir, n):
+    files = []
+    for i in range(n):
+        files += glob.glob(os.path.join(outdir, f"stats{i}.json.*"))
+    return files
+
+
+def run_sched_workers(pid, exe, plans, outdir, res, extra_args=None, timeout=6 * 3600):
+    """plans: list of argument lists (one worker each). Collects failures."""
+    faildir = os.path.join(FOUND, pid, "found")
+    cmds = []
+    for i, pl in enumerate(plans):
+        cmds.append([exe, "--prop", pid, "--cpu", str(i % NCPU), "--out", os.path.join(outdir, f"stats{i}.json"),
+                     "--fail-dir", outdir] + pl + (extra_args or []))
+    results = run_parallel(cmds, timeout=timeout)
+    for c, rc, out, err in results:
+        for line in out.splitlines():
+            if line.startswith("INCONCLUSIVE "):
+                res.inconclusive.append(line[13:])
+        if rc == 0:
+            continue
+        if rc == 1 and "FAILURE " in out:
+            line = [l for l in out.splitlines() if l.startswith("FAILURE ")][0]
+            path = line.split()[1]
+            msg = line.split("::", 1)[1].strip() if "::" in line else ""
+            if confirm_replay(exe, ["--prop", pid] + (extra_args or []), path):
+                os.makedirs(faildir, exist_ok=True)
+                dst = os.path.join(faildir, os.path.basename(path))
+                shutil.copy(path, dst)
+                res.violations.append((dst, msg))
+            else:
+                res.inconclusive.append(f"failure did not reproduce in 3 fresh processes: {path}")
+        elif rc == "timeout":
+            res.inconclusive.append("worker hit the wall-clock budget")
+        else:
+            log(f"harness error rc={rc}: {' '.join(c)}\n{out[-500:]}\n{err[-1500:]}")
+            raise SystemExit(2)
+
+
+def sched_replays(pid, exe, res, extra_args=None):
+    n = 0
+    for path in sorted(glob.glob(os.path.join(VERIF, "replays", pid, "*.txt"))):
+        with open(path) as f:
+            head = f.read(600)
+        if "# expect: fail" in head:
+            continue
+        n += 1
+        rc, out = replay_once(exe, ["--prop", pid] + (extra_args or []), path)
+        if rc != 0 and confirm_replay(exe, ["--prop", pid] + (extra_args or []), path):
+            res.violations.append((path, out[-300:]))
+    return n
+
+
+def sched_coverage(pid, counters, distinct, samples, rule, res, nrep):
+    return {
+        "evaluations": int(counters.get("executions", 0)),
+        "distinct_nontrivial": int(distinct),
+        "rule": rule,
+        "samples": samples[:4] if samples else ["(no sample)"],
+        "programs_explored": counters.get("programs", 0),
+        "programs_exhaustive_to_bound": counters.get("programs_dfs_complete", 0),
+        "programs_dfs_capped": counters.get("programs_dfs_capped", 0),
+        "executions_by_generator": {k[11:]: v for k, v in counters.items() if k.startswith("executions.")},
+        "executions_by_preemptions": {k[26:]: v for k, v in counters.items() if k.startswith("executions_by_preemptions.")},
+        "executions_with_spin": counters.get("executions_with_spin", 0),
+        "scheduler_steps": counters.get("steps", 0),
+        "other_counters": {k: v for k, v in counters.items()
+                           if not k.startswith(("executions.", "executions_by", "programs", "steps", "dfs_"))
+                           and k != "executions"},
+        "regression_replays": nrep,
+        "inconclusive": res.inconclusive,
+        "exhaustive": False,
+    }
+
+
+C07_RULE = ("case = one execution (program, schedule): a generated script of 2-3 threads over one optimistic_lock "
+            "guarding three protected words (read sections with reads/check/unlock, upgrades, three-store writes, "
+            "unlock, unlock-and-obsolete) under the deterministic scheduler; schedules: exhaustive DFS over all "
+            "schedules with <= P preemptions (P in evidence), plus PCT and random walks; oracle: stamped-history "
+            "invariants (writers exclusive, validated sections did not overlap a write-locked period and read a "
+            "snapshot, upgrade only if no writer acquired since open, obsolete is final); non-trivial = another "
+            "thread touched the lock inside a write-locked period; distinct by hash(program, schedule)")
+
+
+def check_c07(pid, tier, seed):
+    t0 = time.time()
+    exe = build("lock")
+    res = Result()
+    nrep = sched_replays(pid, exe, res)
+    outdir = os.path.join(WORK, "run", pid)
+    shutil.rmtree(outdir, ignore_errors=True)
+    os.makedirs(outdir)
+    if tier == "quick":
+        progs, P, cap = 40, 2, 30000
+        plans = [["--seed", str(seed * 1000 + i), "--programs", str(progs), "--dfs-p", str(P), "--dfs-cap", str(cap),
+                  "--pct", "30", "--rand", "30"] for i in range(NCPU)]
+    else:
+        plans = [["--seed", str(seed * 1000 + i), "--programs", "400", "--dfs-p", "2", "--dfs-cap", "60000",
+                  "--pct", "100", "--rand", "100"] for i in range(NCPU - 4)]
+        plans += [["--seed", str(seed * 1000 + 100 + i), "--programs", "40", "--dfs-p", "3", "--dfs-cap", "400000",
+                   "--pct", "0", "--rand", "0"] for i in range(4)]
+    run_sched_workers(pid, exe, plans, outdir, res)
+    counters, distinct, samples = merge_stats(sched_stats_files(outdir, len(plans)))
+    cov = sched_coverage(pid, counters, distinct, samples, C07_RULE, res, nrep)
+    cov["preemption_bound"] = "2 (quick); 2 and 3 (thorough)"
+    write_evidence(pid, tier, seed, "exploration", cov, time.time() - t0, len(res.violations),
+                   ["sequential consistency at the granularity of one hooked access (every atomic access of "
+                    "optimistic_lock and in_critical_section is a scheduling point)",
+                    "the oracle uses conservative stamp intervals: only definite overlaps count as violations"])
+    return finish(pid, res)
+
+
 CHECKS = {
+    "C07": check_c07,
     "C11": check_enc,
     "C12": check_enc,
     "C15": check_enc,
@@ -530,6 +650,7 @@ CHECKS = {
 }
 
 REPLAY = {
+    "C07": ("lock", lambda pid: ["--prop", pid]),
     "C11": ("enc_san", lambda pid: ["--prop", pid]),
     "C12": ("enc_san", lambda pid: ["--prop", pid]),
     "C15": ("enc_san", lambda pid: ["--prop", pid]),
@@ -549,7 +670,7 @@ def main():
     a = ap.parse_args()
     os.makedirs(WORK, exist_ok=True)
     if a.build_all:
-        for t in ["seq", "enc_fast", "enc_san"]:
+        for t in ["seq", "enc_fast", "enc_san", "lock"]:
             build(t)
         return 0
     seed = a.seed if a.seed is not None else int(os.environ.get("VERIF_SEED", "1") or 1)
